@@ -490,6 +490,13 @@ class ValueWrapper(Term):
             sql = self.get_value_sql(quote_char=quote_char, secondary_quote_char=secondary_quote_char, **kwargs)
             return format_alias_sql(sql, self.alias, quote_char=quote_char, **kwargs)
 
+        if isinstance(self.value, Term):
+            # a wrapped term is an expression, not a value: render it (its own constants are collected)
+            sql = self.value.get_sql(
+                quote_char=quote_char, secondary_quote_char=secondary_quote_char, parameter=parameter, **kwargs
+            )
+            return format_alias_sql(sql, self.alias, quote_char=quote_char, **kwargs)
+
         # Don't stringify numbers and None when using a parameter
         if self.value is None or isinstance(self.value, (int, float)):
             value_sql = self.value
